@@ -189,6 +189,18 @@ def payload_vec_local(fg, s):
         return None
     if not b.locals[l]["ty"].startswith("alloc::vec::Vec<"):
         return None
+    # `let outputs = build(..)` with the builder spliced in (rules/inline.py): the named local is a plain move of the
+    # vector the builder filled
+    from an import single_def
+    for _ in range(6):
+        d = single_def(b, l)
+        if d is None or d[1] == "t":
+            break
+        r = d[2]
+        if r["k"] == "use" and r["o"]["k"] == "move" and not r["o"]["p"]["pr"] and b.locals[r["o"]["p"]["l"]]["ty"] == b.locals[l]["ty"]:
+            l = r["o"]["p"]["l"]
+            continue
+        break
     return l
 
 
